@@ -132,7 +132,7 @@ func c14(args []string) error {
 			continue
 		}
 		x := res{l1: []int{}, l2: []int{}, rowsN: []string{}, rowsS: []string{}}
-		kind := r.Intn(15)
+		kind := r.Intn(17)
 		switch kind {
 		case 0:
 			var m map[uint8]int64
@@ -244,6 +244,49 @@ func c14(args []string) error {
 		case 13:
 			x.class, _ = guarded(5e9, func() error { u, _, _, e := a.NumMutationsUniquePerSequence(nil); x.l1 = intsOf(u); return e })
 			add(alpha, names, seqs, "NumMutationsUniquePerSequence", "OpMutUnique", x)
+		case 15, 16: // the same counters against a count profile built from another alignment of the same length
+			pn := 1 + r.Intn(4)
+			pnames := distinctNames(r, pn)
+			pseqs := make([]string, pn)
+			for k := range pseqs {
+				b := make([]byte, L)
+				for j := range b {
+					if r.Intn(3) == 0 && nseq > 0 {
+						b[j] = seqs[r.Intn(nseq)][j]
+					} else {
+						b[j] = letters[r.Intn(len(letters))]
+					}
+				}
+				pseqs[k] = string(b)
+			}
+			pa, e := mkAlign(alpha, pnames, pseqs)
+			if e != nil || L == 0 || nseq == 0 {
+				continue
+			}
+			prof := align.NewCountProfileFromAlignment(pa)
+			x.rowsN, x.rowsS = pnames, pseqs
+			both := []int{}
+			x.class, _ = guarded(5e9, func() error {
+				var u, nw, bo []int
+				var e error
+				if kind == 15 {
+					u, nw, bo, e = a.NumGapsUniquePerSequence(prof)
+				} else {
+					u, nw, bo, e = a.NumMutationsUniquePerSequence(prof)
+				}
+				x.l1, x.l2, both = intsOf(u), intsOf(nw), intsOf(bo)
+				return e
+			})
+			kv := []string{}
+			for _, v := range both {
+				kv = append(kv, fmt.Sprintf("(x00, %s)", coqZ(v)))
+			}
+			x.kv = coqList(kv)
+			if kind == 15 {
+				add(alpha, names, seqs, "NumGapsUniquePerSequence(profile)", "OpGapsProfile", x)
+			} else {
+				add(alpha, names, seqs, "NumMutationsUniquePerSequence(profile)", "OpMutProfile", x)
+			}
 		case 14:
 			if nseq < 1 {
 				continue
